@@ -136,7 +136,11 @@ class C13(Prop):
             evs.insert(rng.randrange(xi + 1), ["out", [65 + rng.randrange(3)]])
             xi += 1
         case = {"events": evs, "enc": enc, "in": stream, "pty": rng.random() < 0.25, "hide": "both",
-                "respond": respond, "warn": True}
+                "respond": respond, "warn": True, "async": rng.random() < 0.2,
+                # where "the output stream" is: an explicit out_stream object, or sys.stdout
+                # (an explicit object is never hidden, so only without stdout reads for the watcher)
+                "out_given": nout == 0 and rng.random() < 0.5,
+                "enc_from": rng.choice(["kwarg", "kwarg", "config"])}
         e = rng.choice(["none", "none", "true", "false"])
         if e != "none":
             case["echo_stdin"] = (e == "true")
@@ -169,7 +173,11 @@ class C13(Prop):
         o = rc.run_scripted(dict(case))
         died = "UnicodeEncodeError" in (o.get("thread_excs") or [])
         w = o["stdin_writes"]
+        log = o["stdin_log"]
+        first_close = log.index("c") if "c" in log else len(log)
         return {
+            "close_last": "w:in" not in log[first_close:],
+            "silent": o["out_other"] == "",
             "done": not o["hang"], "hang": o["hang"], "hang_what": o.get("hang_what"), "outcome": o["outcome"],
             "received": None if died else [b for chunk in w["in"] for b in chunk],
             "closes": o["stdin_closes"],
@@ -201,7 +209,8 @@ class C13(Prop):
         o = "(mkSobs %s %s %s %s %s)" % (
             opt_bytes(obs["received"]), ct.n(obs["closes"]), text(obs["echo"]), ct.b(obs["terminated"]),
             opt_bytes(obs["responses"]))
-        return "(mk %s %s %s)" % (i, ct.b(obs["done"]), o)
+        return "(mk %s %s %s %s %s)" % (i, ct.b(obs["done"]), ct.b(obs.get("close_last", True)),
+                                        ct.b(obs.get("silent", True)), o)
 
     def nontrivial(self, case, obs):
         return any(e[0] == "in" for e in case["events"]) or bool(self.responses_of(case))
@@ -256,6 +265,9 @@ class C13(Prop):
                         yield dict(case, events=e2)
         if case.get("respond"):
             yield dict(case, respond=None)
+        for k in ("async", "out_given"):
+            if case.get(k):
+                yield dict(case, **{k: False})
         if case["pty"]:
             yield dict(case, pty=False)
         if "echo_stdin" in case:
@@ -327,6 +339,12 @@ def real_cases(tier):
     cs.append({"kind": "cat", "text": "plain ascii bytes\n", "mode": "bytes"})
     cs.append({"kind": "cat", "text": "héllo", "mode": "bytes"})          # F-C13 on the real runner
     cs.append({"kind": "respond"})
+    cs.append({"kind": "pipe-eof", "buffered": False})   # `echo hi | ...` shape: data then EOF on a real pipe
+    cs.append({"kind": "pipe-eof", "buffered": True})
+    cs.append({"kind": "idle-pipe"})                     # pipe held open, nothing fed, command exits at once
+    cs.append({"kind": "async-cat"})                     # asynchronous=True with an explicit in_stream
+    cs.append({"kind": "default-stdin"})                 # in_stream not given: the interpreter's piped sys.stdin
+    cs.append({"kind": "cat", "text": "0123456789abcdef" * 25 + "\n", "mode": "text"})   # > 300 bytes
     cs.append({"kind": "respond-no-newline"})     # a response without a line end must still arrive
     cs.append({"kind": "open-pipe", "buffered": False})   # input not at EOF, no line end: delivered, not held back
     cs.append({"kind": "open-pipe", "buffered": True})    # same through a buffered text stream (F-C13b)
@@ -348,6 +366,31 @@ def real_case(c):
         kw["in_stream"] = False
         kw["watchers"] = [Responder(pattern=r"Q\?", response="yes\n")]
         cmd = [sys.executable, "-u", "-c", "print('Q?'); x=input(); print('got', x)"]
+    elif kind == "pipe-eof":
+        rfd, wfd = os.pipe()
+        os.write(wfd, b"hi\n")
+        os.close(wfd)
+        kw["in_stream"] = os.fdopen(rfd, "r") if c["buffered"] else os.fdopen(rfd, "rb", 0)
+        cmd = "cat"
+    elif kind == "idle-pipe":
+        rfd, wfd = os.pipe()
+        kw["in_stream"] = os.fdopen(rfd, "rb", 0)
+        cmd = "true"
+    elif kind == "async-cat":
+        kw["in_stream"] = io.StringIO("abc\n")
+        kw["asynchronous"] = True
+        cmd = "cat"
+    elif kind == "default-stdin":
+        import subprocess
+        prog = ("import sys; sys.path.insert(0, %r)\nfrom invoke import Context\n"
+                "r = Context().run('cat', hide=True)\nprint('GOT', repr(r.stdout))" % core.REPO)
+        try:
+            p = subprocess.run([sys.executable, "-c", prog], input=b"hi there\n", capture_output=True, timeout=30)
+        except subprocess.TimeoutExpired:
+            return {"case": c, "what": "interpreter with piped stdin did not finish within 30 s"}
+        ok = b"GOT 'hi there\\n'" in p.stdout
+        return None if ok else {"case": c, "what": {"stdout": p.stdout[-200:].decode("utf-8", "replace"),
+                                                    "stderr": p.stderr[-300:].decode("utf-8", "replace")}}
     elif kind == "respond-no-newline":
         kw["in_stream"] = False
         kw["watchers"] = [Responder(pattern=r"Q\?", response="yes")]
@@ -362,7 +405,14 @@ def real_case(c):
         kw["pty"] = True
         cmd = "head -n1"
     r = rc.run_real(cmd, bound=(6.0 if c.get("buffered") else 15.0) if kind in ("respond-no-newline", "open-pipe")
-                    else 30.0, **kw)
+                    else 12.0 if kind in ("pipe-eof", "idle-pipe", "async-cat") else 30.0, **kw)
+    if kind in ("pipe-eof", "idle-pipe"):
+        if kind == "idle-pipe":
+            os.close(wfd)
+        try:
+            kw["in_stream"].close()
+        except OSError:
+            pass
     if kind == "open-pipe":
         os.close(wfd)
         try:
@@ -394,6 +444,12 @@ def real_case(c):
         return None if out.strip() == want else {"case": case, "what": {"want": want, "got": out.strip()}}
     if kind == "head":
         return None if out == c["text"][:5] else {"case": case, "what": {"want": c["text"][:5], "got": out[:40]}}
+    if kind == "pipe-eof":
+        return None if out == "hi\n" else {"case": case, "what": {"want": "hi\n", "got": out}}
+    if kind == "idle-pipe":
+        return None if r["elapsed"] < 8 else {"case": case, "what": "took %.1fs" % r["elapsed"]}
+    if kind == "async-cat":
+        return None if out == "abc\n" else {"case": case, "what": {"want": "abc\n", "got": out}}
     if kind in ("respond", "respond-no-newline"):
         return None if "got yes" in out else {"case": case, "what": {"got": out}}
     if kind == "open-pipe":
